@@ -1835,6 +1835,14 @@ func (s *BgpServer) handleFSMMessage(peer *peer, e *fsmMsg) {
 				peer.fsm.gConf.Config.RouterId, conf.Transport.State.RemoteAddress, conf.Transport.State.LocalAddress)
 			peer.peerInfo.Store(peerInfo)
 
+			// RFC 4724 4.2: the peer came back without the graceful restart
+			// capability (or without any address family in it). It is not going
+			// to send End-of-RIB, so the routes retained for it are removed now.
+			if conf.GracefulRestart.State.PeerRestarting && peer.allNegotiatedEORReceived() {
+				peer.stopPeerRestarting()
+				s.propagateUpdate(peer, peer.adjRibIn.DropStale(peer.configuredRFlist()))
+			}
+
 			neighborAddress := conf.State.NeighborAddress
 			deferralExpiredFunc := func(family bgp.Family, deferralTime time.Duration) func() {
 				//nolint: errcheck // ignore error
